@@ -31,6 +31,9 @@ BASES = {
     # still inside the matching tolerance) - with 1e-10 that stays below the read-back tolerance of C18
     'fuzzy': ['-f', '300', '-w', '10,0,0,0,0.333333,0,0,.001', '-w', '10,0.3333330001,0,0.333333,0.3333330001,0,0,.001', '-w', '6,1e-10,0,0,0,0.2,0.1,.001',
               '--excitation-pulse=9'],
+    # wires with the smallest segment counts (2, 3 and 1 segments): a two-segment taper from one end is l/3 + 2l/3
+    'short': ['-f', '21.3', '-w', '2,0,0,1,0.5,0.8,2,0.001', '-w', '3,0.5,0.8,2,2,0.5,2.6,0.002', '-w', '1,2,0.5,2.6,2.3,1.2,2.3,0.001',
+              '--excitation-pulse=1'],
     'loaded': ['-f', '21.3', '-w', '4,0,0,1,0.5,0.8,2,0.001', '-w', '5,0.5,0.8,2,2,0.5,2.6,0.002', '-w', '3,2,0.5,2.6,2.5,2,2,0.001',
                '--excitation-pulse=2', '--load=10+5j', '--attach-load=1,4'],
 }
